@@ -9,6 +9,8 @@ model `Firefly.Pmm` is written with. A changed shift, mask, rounding or comparis
 changes `Gen/PmmExpr.lean` and one of these stops checking.
 -/
 namespace Firefly.Tie.Pmm
+-- `omega` over terms with `% 2^64` recurses deeply on the literal; the default depth is too small
+set_option maxRecDepth 8000
 open Firefly.Pmm Firefly.Gen.PmmExpr Firefly.Bits
 
 private theorem m4095 : (4095#64 : BitVec 64) = BitVec.ofNat 64 (2^12 - 1) := by decide
@@ -20,32 +22,43 @@ private theorem n3 : 3 % 2 ^ 64 = 3 := by decide
 private theorem n6 : 6 % 2 ^ 64 = 6 := by decide
 private theorem ePage : Firefly.Gen.Pmm.pageSize = 4096 := by decide
 
+private theorem k4095 : (2^12 - 1) % 2^64 = 4095 := by decide
+private theorem k63 : (2^6 - 1) % 2^64 = 63 := by decide
+private theorem e6 : (6#64 : BitVec 64).toNat = 6 := by decide
+private theorem e3 : (3#64 : BitVec 64).toNat = 3 := by decide
+
+/-- One arithmetic normal form for every regenerated expression: masks `&&& ~~~(2^k-1)` become
+`/ 2^k * 2^k`, shifts become `/ 2^k` and `* 2^k`, everything is read through `toNat`, and `omega`
+closes the goal. The same script proves the lemma for any *equivalent* way of writing the Go
+expression (dropping a mask that the following shift makes redundant, `>> 12` vs `/ 4096`, …): a
+behaviour-preserving rewrite of the source does not break the tie, a changed rounding does. -/
+macro "tie_arith" : tactic => `(tactic| (
+  simp only [shift12, m4095, m63, BitVec.ushiftRight_eq', BitVec.shiftLeft_eq', BitVec.toNat_ofNat, n12, n3, n6,
+    k4095, k63, e12, e6, e3, ePage, BitVec.toNat_ushiftRight, BitVec.toNat_shiftLeft, Nat.shiftLeft_eq,
+    toNat_and_not_lowmask, BitVec.toNat_add, BitVec.toNat_sub, BitVec.toNat_mul, BitVec.toNat_udiv, BitVec.toNat_umod,
+    Nat.shiftRight_eq_div_pow] <;> omega))
+
+/-- equality of two regenerated BitVec expressions, through the same normal form -/
+macro "tie_same" : tactic => `(tactic| first | rfl | (apply BitVec.eq_of_toNat_eq; tie_arith))
+
 theorem tie_pageSizeMinus1 : rfPageSizeMinus1 = 4095#64 := by decide
 
 /-- round-up of a region start: `regionFrames`' `start` and the boot allocator's `regionStartFrame` -/
 theorem tie_regionStart (a : BitVec 64) (h : a.toNat + 4095 < 2^64) (len typ : Nat) :
     (rfStart a).toNat = regionStart { addr := a.toNat, len := len, typ := typ } ∧
     bootRegionStart a = rfStart a := by
-  refine ⟨?_, rfl⟩
-  unfold rfStart regionStart
-  rw [shift12, m4095]
-  simp only [BitVec.ushiftRight_eq', BitVec.shiftLeft_eq', BitVec.toNat_ofNat, n12, n3, n6, BitVec.toNat_ushiftRight, toNat_and_not_lowmask, BitVec.toNat_add, BitVec.toNat_ofNat,
-    Nat.shiftRight_eq_div_pow, ePage, e12]
-  have : (a.toNat + (2^12 - 1) % 2^64) % 2^64 = a.toNat + 4095 := by omega
-  rw [this]
-  omega
+  refine ⟨?_, ?_⟩
+  · unfold rfStart regionStart; tie_arith
+  · unfold bootRegionStart rfStart; tie_same
 
 /-- round-down of a region end -/
 theorem tie_regionEndExcl (a l : BitVec 64) (h : a.toNat + l.toNat < 2^64) (typ : Nat) :
     (rfEndExclusive a l).toNat = regionEndExcl { addr := a.toNat, len := l.toNat, typ := typ } := by
-  unfold rfEndExclusive regionEndExcl
-  rw [shift12, m4095]
-  simp only [BitVec.ushiftRight_eq', BitVec.shiftLeft_eq', BitVec.toNat_ofNat, n12, n3, n6, BitVec.toNat_ushiftRight, toNat_and_not_lowmask, BitVec.toNat_add, Nat.shiftRight_eq_div_pow,
-    ePage, e12]
-  rw [Nat.mod_eq_of_lt h]
-  omega
+  unfold rfEndExclusive regionEndExcl; tie_arith
 
-theorem tie_bootRegionEnd (a l : BitVec 64) : bootRegionEnd a l = rfEndExclusive a l - 1#64 := rfl
+theorem tie_bootRegionEnd (a l : BitVec 64) (h : a.toNat + l.toNat < 2^64) :
+    bootRegionEnd a l = rfEndExclusive a l - 1#64 := by
+  unfold bootRegionEnd rfEndExclusive; tie_same
 
 theorem tie_noFrame (e s : BitVec 64) : rfNoFrame e s = decide (e.toNat ≤ s.toNat) := by
   unfold rfNoFrame; simp [BitVec.le_def]
@@ -59,25 +72,15 @@ theorem tie_kernelFrames (ks ke : BitVec 64) (h : ke.toNat + 4095 < 2^64) (hpos 
     (bootKernelStartFrame ks).toNat = (bootInit ks.toNat ke.toNat).kStart ∧
     (bootKernelEndFrame ke).toNat = (bootInit ks.toNat ke.toNat).kEnd := by
   unfold bootKernelStartFrame bootKernelEndFrame bootInit
-  rw [shift12, m4095]
   constructor
-  · simp only [BitVec.ushiftRight_eq', BitVec.shiftLeft_eq', BitVec.toNat_ofNat, n12, n3, n6, BitVec.toNat_ushiftRight, toNat_and_not_lowmask, Nat.shiftRight_eq_div_pow, ePage, e12]
-    omega
-  · have h1 : (((ke + BitVec.ofNat 64 (2^12-1)) &&& ~~~BitVec.ofNat 64 (2^12-1)) >>> 12#64).toNat =
-        (ke.toNat + 4095) / 4096 := by
-      simp only [BitVec.ushiftRight_eq', BitVec.shiftLeft_eq', BitVec.toNat_ofNat, n12, n3, n6, BitVec.toNat_ushiftRight, toNat_and_not_lowmask, BitVec.toNat_add, BitVec.toNat_ofNat,
-        Nat.shiftRight_eq_div_pow, e12]
-      have : (ke.toNat + (2^12 - 1) % 2^64) % 2^64 = ke.toNat + 4095 := by omega
-      rw [this]; omega
-    rw [BitVec.toNat_sub_of_le]
-    · rw [h1]; simp only [ePage]; rfl
-    · rw [BitVec.le_def, h1]; simp; omega
+  · tie_arith
+  · tie_arith
 
 /-- `markFrame` / `FreeFrame`: word index and MSB-first bit mask of a pool-relative frame -/
 theorem tie_block (rel : BitVec 64) : (markBlock rel).toNat = rel.toNat / 64 ∧ freeBlock rel = markBlock rel := by
-  refine ⟨?_, rfl⟩
-  unfold markBlock
-  simp [BitVec.ushiftRight_eq', BitVec.toNat_ushiftRight, Nat.shiftRight_eq_div_pow]
+  refine ⟨?_, ?_⟩
+  · unfold markBlock; tie_arith
+  · unfold freeBlock markBlock; tie_same
 
 theorem tie_mask (rel : BitVec 64) :
     markMask rel (markBlock rel) = bitMask rel.toNat ∧ freeMask rel (freeBlock rel) = bitMask rel.toNat := by
@@ -111,10 +114,7 @@ theorem tie_freeIsFree (w m : BitVec 64) : freeIsFree w m = decide (w &&& m = 0)
 theorem tie_allocFrameResult (s blk off : BitVec 64)
     (h : s.toNat + (blk.toNat * 64 + off.toNat) < 2^64) :
     (allocFrameResult s blk off).toNat = s.toNat + (blk.toNat * 64 + off.toNat) := by
-  unfold allocFrameResult
-  have e6 : (6#64 : BitVec 64).toNat = 6 := by decide
-  simp only [BitVec.shiftLeft_eq', BitVec.toNat_add, BitVec.toNat_shiftLeft, Nat.shiftLeft_eq, e6]
-  omega
+  unfold allocFrameResult; tie_arith
 
 /-- bitmap sizing: `pageCount`, `freeCount`, bytes of bitmap per pool -/
 theorem tie_pageCount (e s : BitVec 64) (h : s.toNat ≤ e.toNat) (hsm : e.toNat - s.toNat + 1 < 2^32) :
@@ -132,32 +132,15 @@ theorem tie_pageCount (e s : BitVec 64) (h : s.toNat ≤ e.toNat) (hsm : e.toNat
 
 theorem tie_bitmapBytes (e s : BitVec 64) (h : s.toNat ≤ e.toNat) (hsm : e.toNat - s.toNat + 1 < 2^32) :
     (setupBitmapBytes e s).toNat = wordsFor (e.toNat - s.toNat + 1) * 8 := by
-  unfold setupBitmapBytes wordsFor
-  rw [m63]
-  have e3 : (3#64 : BitVec 64).toNat = 3 := by decide
-  simp only [BitVec.ushiftRight_eq', BitVec.shiftLeft_eq', BitVec.toNat_ofNat, n12, n3, n6, BitVec.toNat_ushiftRight, toNat_and_not_lowmask, BitVec.toNat_add, BitVec.toNat_ofNat,
-    BitVec.toNat_sub_of_le (BitVec.le_def.2 h), Nat.shiftRight_eq_div_pow, e3]
   have := e.isLt
-  have : ((e.toNat - s.toNat + 1 % 2^64) % 2^64 + (2^6 - 1) % 2^64) % 2^64 = e.toNat - s.toNat + 1 + 63 := by
-    omega
-  rw [this]
-  omega
+  unfold setupBitmapBytes wordsFor; tie_arith
 
 theorem tie_requiredPages (b : BitVec 64) : (setupRequiredPages b).toNat = b.toNat / 4096 := by
-  unfold setupRequiredPages
-  rw [shift12]
-  simp [BitVec.ushiftRight_eq', BitVec.toNat_ushiftRight, Nat.shiftRight_eq_div_pow]
+  unfold setupRequiredPages; tie_arith
 
 theorem tie_requiredBytes (n sz bm : BitVec 64) (h : n.toNat * sz.toNat + bm.toNat + 4095 < 2^64) :
     (setupRequiredBytes n sz bm).toNat = (n.toNat * sz.toNat + bm.toNat + 4095) / 4096 * 4096 := by
-  unfold setupRequiredBytes
-  rw [m4095]
-  simp only [toNat_and_not_lowmask, BitVec.toNat_add, BitVec.toNat_mul, BitVec.toNat_ofNat]
-  have hm : n.toNat * sz.toNat < 2^64 := by omega
-  have : ((n.toNat * sz.toNat % 2^64 + bm.toNat) % 2^64 + (2^12 - 1) % 2^64) % 2^64 =
-      n.toNat * sz.toNat + bm.toNat + 4095 := by
-    rw [Nat.mod_eq_of_lt hm]; omega
-  rw [this]
+  unfold setupRequiredBytes; tie_arith
 
 /-! guards of `BootMemAllocator.AllocFrame` -/
 
